@@ -113,7 +113,7 @@ register("C35", module="histchecks", fn="case_c35", replay="replay_c35", binarie
 
 register("C13", module="cachechecks", fn="case_c13", replay="replay_harness", binaries=("cache",),
          cases={"quick": 32, "thorough": 800}, budget={"quick": 280, "thorough": 3300}, level="fault_enumeration",
-         rule="scenario = generated output tree + one fault family: (store-read) a read fault EIO/ENOENT/EACCES on EVERY open/lstat/readlink of the store walk in turn, HTTP or command cache; (store-net) PUT body cut after k bytes / 503 / response lost after commit, repeated 1-6 times against the retry loop under the simulated clock; (retrieve-net) GET body reset or cleanly cut after k bytes / 500 / a flipped byte; (cmd-retrieve) the retrieve command's output cut at every 512-byte boundary +-1 and near both ends, exiting 0 or 1; (cmd-store-fail) the store command consumes part of the stream and exits 1; after every faulty store a fault-free retrieve runs; oracle: a hit restores exactly the stored tree, otherwise a miss; every body the stub server commits must be a complete archive of the request; evaluations = store+retrieve runs; distinct_nontrivial = distinct (scenario, fault position)",
+         rule="scenario = generated output tree + one fault family: (store-read) a read fault EIO/ENOENT/EACCES on EVERY open/lstat/readlink of the store walk in turn, HTTP or command cache; (store-net) PUT body cut after k bytes / 503 / response lost after commit, repeated 1-6 times against the retry loop under the simulated clock; (retrieve-net) GET body reset or cleanly cut after k bytes / 500; (cmd-retrieve) the retrieve command's output cut at every 512-byte boundary +-1 and near both ends, exiting 0 or 1; (cmd-store-fail) the store command consumes part of the stream and exits 1; after every faulty store a fault-free retrieve runs; oracle: a hit restores exactly the stored tree, otherwise a miss; every body the stub server commits must be a complete archive of the request; evaluations = store+retrieve runs; distinct_nontrivial = distinct (scenario, fault position)",
          assumptions=["the HTTP server is a stub (in-memory RoundTripper installed as http.DefaultTransport) that commits only completely received bodies", "the command cache's store script is atomic (temp file + mv, with a 150 ms guard so that plz's kill on error always precedes the mv)", "read faults are injected at open/lstat/readlink, not in the middle of reading a file"],
          components={"real": ["src/cache httpCache, cmdCache, readTar, storeFile", "hashicorp/go-retryablehttp retry loop under the simulated clock", "real sh/cat/head/mv subprocesses for the command cache"], "stub": ["HTTP server and transport (simnet)", "task scheduling, clock"]})
 
